@@ -1084,8 +1084,10 @@ def operand_cli(w, repo):
             want = ("accepts" in w.get("what", "").split("reference")[-1]) if (i == 0 and toks) else want_of.get(tuple(t), False)
             rc, out, err = run([find_bin(repo), "f"] + list(t), cwd=d)
             ok = (rc == 0) if want else (rc != 0 and out == b"")
+            if rc == 101 or rc < 0 or b"panicked at" in err:
+                ok = False                  # "never a panic, abort or hang": a Rust panic ends the process with status 101
             if not ok:
-                dev.append("find f %s: rc=%d stdout=%r, reference %s" % (" ".join(repr(x) for x in t), rc, out, "accepts" if want else "rejects"))
+                dev.append("find f %s: rc=%d stdout=%r%s, reference %s" % (" ".join(repr(x) for x in t), rc, out, " (panic)" if b"panicked at" in err else "", "accepts" if want else "rejects"))
     if dev:
         return True, "; ".join(dev[:3])
     return (False if toks else None), "the witness and %d neighbouring command lines behave like the reference natively" % (len(cases) - 1)
